@@ -205,6 +205,7 @@ func cmdCheck(args []string) {
 	var knownLines []string
 	var engineErrs []string
 	var samples []map[string]interface{}
+	var slowest []map[string]interface{} // the slowest discharged obligations (how close the run is to the time limit)
 	var solverMs int64
 	have := map[string]bool{}
 	canaries := 0
@@ -230,6 +231,9 @@ func cmdCheck(args []string) {
 			continue
 		}
 		total++
+		if r.Status == "unsat" || r.Status == "ok" {
+			slowest = append(slowest, map[string]interface{}{"name": r.Name, "solver": r.Solver, "ms": r.Ms})
+		}
 		if len(samples) < 400 {
 			samples = append(samples, map[string]interface{}{"name": r.Name, "kind": r.Kind, "solver": r.Solver, "result": r.Status, "ms": r.Ms})
 		}
@@ -427,6 +431,7 @@ func cmdCheck(args []string) {
 			"functions_under_contract": fnList,
 			"samples":                  samples,
 			"solver_time_s":            float64(solverMs) / 1000.0,
+			"slowest_discharged":       topSlow(slowest, 8),
 			"canaries_checked":         canaries,
 			"known_findings":           knownLines,
 			"engine_notes":             notes,
@@ -606,4 +611,13 @@ func (g *Gen) autoCanaries() []*Obligation {
 		out = append(out, &Obligation{Name: g.fnShort() + "/path:" + pp.label, Kind: "path", Fn: k, PrefixLen: pp.prefix, PC: pp.pc, Goal: "false", Canary: true, Script: g.sc})
 	}
 	return out
+}
+
+// topSlow: the n slowest discharged obligations
+func topSlow(xs []map[string]interface{}, n int) []map[string]interface{} {
+	sort.Slice(xs, func(i, j int) bool { return xs[i]["ms"].(int64) > xs[j]["ms"].(int64) })
+	if len(xs) > n {
+		xs = xs[:n]
+	}
+	return xs
 }
